@@ -952,3 +952,241 @@ func fine(a, b int32) int32 { return a / b }
 		o.Verdict, o.VerdictS = Undecided, "undecided"
 	}
 }
+
+// ---------- TS-FLOOR
+
+// A count of seconds (or of any sub-unit) since the epoch is negative before 1970. Go's integer division
+// truncates toward zero, so "seconds / 86400" gives day 0 for every instant of 31 Dec 1969 but midnight:
+// the specification's "number of days from the epoch" is the floor. A quotient of a value that comes from a
+// time.Time (Unix, UnixMilli, ..., or a Duration) therefore has to be corrected downward when the remainder
+// is negative, before it goes on the wire.
+
+// timeDerived: v comes, through conversions and additions of constants, from a method of time.Time or
+// time.Duration that returns an integer (a signed count that is negative before the epoch).
+var timeRecvTypes = map[string]bool{"time.Time": true, "time.Duration": true, "*time.Time": true}
+
+func timeDerived(v ssa.Value, d int) bool {
+	if d > 6 {
+		return false
+	}
+	switch x := v.(type) {
+	case *ssa.Convert:
+		return timeDerived(x.X, d+1)
+	case *ssa.ChangeType:
+		return timeDerived(x.X, d+1)
+	case *ssa.BinOp:
+		if x.Op == token.ADD || x.Op == token.SUB {
+			return timeDerived(x.X, d+1) || timeDerived(x.Y, d+1)
+		}
+	case *ssa.Phi:
+		for _, e := range x.Edges {
+			if timeDerived(e, d+1) {
+				return true
+			}
+		}
+	case *ssa.Call:
+		g := x.Call.StaticCallee()
+		if g == nil || g.Signature.Recv() == nil {
+			return false
+		}
+		if !timeRecvTypes[typeKey(g.Signature.Recv().Type())] {
+			return false
+		}
+		if g.Signature.Results().Len() != 1 {
+			return false
+		}
+		b, ok := g.Signature.Results().At(0).Type().Underlying().(*types.Basic)
+		return ok && b.Info()&types.IsInteger != 0 && b.Info()&types.IsUnsigned == 0
+	}
+	return false
+}
+
+// truncatingQuotients: signed divisions by a constant > 1 of a time-derived value whose result is not
+// floor-corrected (merged, in a phi, with itself minus one under a test of the remainder or of the sign).
+func truncatingQuotients(fns []*ssa.Function) []*ssa.BinOp {
+	var out []*ssa.BinOp
+	for _, fn := range fns {
+		for _, b := range fn.Blocks {
+			for _, in := range b.Instrs {
+				q, ok := in.(*ssa.BinOp)
+				if !ok || q.Op != token.QUO {
+					continue
+				}
+				bt, ok := q.Type().Underlying().(*types.Basic)
+				if !ok || bt.Info()&types.IsInteger == 0 || bt.Info()&types.IsUnsigned != 0 {
+					continue
+				}
+				k, isK := constInt(q.Y)
+				if !isK || k <= 1 || !timeDerived(q.X, 0) {
+					continue
+				}
+				if !floorCorrected(q) {
+					out = append(out, q)
+				}
+			}
+		}
+	}
+	return out
+}
+
+func floorCorrected(q *ssa.BinOp) bool {
+	// q-1 (or q + -1), directly or after a conversion of q
+	var carriers []ssa.Value
+	carriers = append(carriers, q)
+	for i := 0; i < len(carriers) && i < 8; i++ {
+		for _, r := range referrersOf(carriers[i]) {
+			switch x := r.(type) {
+			case *ssa.Convert:
+				carriers = append(carriers, x)
+			case *ssa.ChangeType:
+				carriers = append(carriers, x)
+			}
+		}
+	}
+	isCarrier := func(v ssa.Value) bool {
+		for _, c := range carriers {
+			if c == v {
+				return true
+			}
+		}
+		return false
+	}
+	for _, cv := range carriers {
+		for _, r := range referrersOf(cv) {
+			dec, ok := r.(*ssa.BinOp)
+			if !ok {
+				continue
+			}
+			one := false
+			if k, isK := constInt(dec.Y); isK && dec.X == cv && (dec.Op == token.SUB && k == 1 || dec.Op == token.ADD && k == -1) {
+				one = true
+			}
+			if !one {
+				continue
+			}
+			// merged with the uncorrected quotient in a phi whose diamond tests the remainder or the sign
+			for _, r2 := range referrersOf(dec) {
+				phi, ok := r2.(*ssa.Phi)
+				if !ok {
+					continue
+				}
+				hasQ := false
+				for _, e := range phi.Edges {
+					if isCarrier(e) {
+						hasQ = true
+					}
+				}
+				if !hasQ {
+					continue
+				}
+				// the branch that selects: the immediate dominator's If
+				idom := phi.Block().Idom()
+				if idom == nil {
+					continue
+				}
+				iff, ok := idom.Instrs[len(idom.Instrs)-1].(*ssa.If)
+				if !ok {
+					continue
+				}
+				if condMentionsRemOrSign(iff.Cond, q, 0) {
+					return true
+				}
+				// a && chain: the test of the sign may sit one block further up
+				if up := idom.Idom(); up != nil {
+					if iff2, ok := up.Instrs[len(up.Instrs)-1].(*ssa.If); ok && condMentionsRemOrSign(iff2.Cond, q, 0) {
+						return true
+					}
+				}
+			}
+		}
+	}
+	return false
+}
+
+func condMentionsRemOrSign(c ssa.Value, q *ssa.BinOp, d int) bool {
+	if d > 5 {
+		return false
+	}
+	switch x := c.(type) {
+	case *ssa.UnOp:
+		return condMentionsRemOrSign(x.X, q, d+1)
+	case *ssa.Convert:
+		return condMentionsRemOrSign(x.X, q, d+1)
+	case *ssa.BinOp:
+		if x.Op == token.REM && sameValue(stripConv(x.X), stripConv(q.X)) {
+			return true
+		}
+		switch x.Op {
+		case token.LSS, token.LEQ, token.GTR, token.GEQ:
+			if k, isK := constInt(x.Y); isK && k == 0 && (sameValue(stripConv(x.X), stripConv(q.X)) || condMentionsRemOrSign(x.X, q, d+1)) {
+				return true
+			}
+			if k, isK := constInt(x.X); isK && k == 0 && (sameValue(stripConv(x.Y), stripConv(q.X)) || condMentionsRemOrSign(x.Y, q, d+1)) {
+				return true
+			}
+		}
+		return condMentionsRemOrSign(x.X, q, d+1) || condMentionsRemOrSign(x.Y, q, d+1)
+	}
+	return false
+}
+
+func ruleTSFloor(c *Ctx) {
+	c.Rule("TS-FLOOR", "a count derived from a time (seconds since the epoch, a duration) is turned into a coarser unit by floor division: a quotient taken with Go's truncating / is corrected downward when the remainder is negative, so instants before 1970 land in the unit that contains them", 0)
+	P := c.P
+	var fns []*ssa.Function
+	for _, fn := range P.ModuleFuncs() {
+		if isTimePkgFunc(P)(fn) {
+			fns = append(fns, fn)
+		}
+	}
+	n := 0
+	for _, q := range truncatingQuotients(fns) {
+		n++
+		c.Bad(fmt.Sprintf("%s/truncating-quotient#%d", fnKey(q.Parent()), n), P.pos(q.Pos()), fmt.Sprintf("%s divides a count that is negative before the epoch and keeps Go's quotient, which truncates toward zero: an instant before 1970 that is not a whole multiple of the unit is put into the following unit (31 Dec 1969 12:00 becomes day 0)", strings.TrimSpace(q.String())))
+	}
+	if n == 0 {
+		c.OK("time/no-truncating-quotient", "-", "every division of a time-derived signed count by a unit constant is floor-corrected (or there is none)")
+	}
+	// positive fixture (a stand-in for time.Time, since fixtures have no imports)
+	fx := buildFixture(`package fx
+type Time struct{ s int64 }
+func (t Time) Unix() int64 { return t.s }
+func bad(t Time) int32 { return int32(t.Unix() / 86400) }
+func good(t Time) int32 {
+	s := t.Unix()
+	d := s / 86400
+	if s%86400 < 0 {
+		d--
+	}
+	return int32(d)
+}
+func alsoGood(t Time) int32 {
+	s := t.Unix()
+	d := int32(s / 86400)
+	if s < 0 && s%86400 != 0 {
+		d -= 1
+	}
+	return d
+}
+`)
+	if fx == nil {
+		c.Unk("fixture/TS-FLOOR", "-", "fixture package did not build")
+		return
+	}
+	var ffns []*ssa.Function
+	for _, m := range fx.Members {
+		if f, ok := m.(*ssa.Function); ok {
+			ffns = append(ffns, f)
+		}
+	}
+	timeRecvTypes["fx.Time"] = true
+	hits := map[string]bool{}
+	for _, q := range truncatingQuotients(ffns) {
+		hits[q.Parent().Name()] = true
+	}
+	delete(timeRecvTypes, "fx.Time")
+	o := c.ob(Discharged, "fixture/TS-FLOOR", "-", fmt.Sprintf("positive fixture: flagged %v (expected exactly bad)", hits), false)
+	if !(len(hits) == 1 && hits["bad"]) {
+		o.Verdict, o.VerdictS = Undecided, "undecided"
+	}
+}
